@@ -9,7 +9,8 @@ in source order and reduced to a list of events:
     GAug a            self.a += ...                     (in place when a is an array: NOT undone by the rollback)
     GStore a          self.a[...] = / += ... , self.a.<mutator>(...)      (in place)
     GParamStore p     p[...] = / += ..., p += ...  for a function parameter p (kernels write their arguments in place)
-    GCall m           self.m(...), super().m(...), or one of the bare names function / _define_lut_func / _build_lut
+    GCall m           self.m(...), super().m(...), one of the bare names function / _define_lut_func / _build_lut, or
+                      `asarray` for _np.asarray(<parameter>)
     GConv x           x.astype(...)                     (a library call that raises on unsuitable dtypes)
     GSnapshot         dict(self.__dict__)
 
@@ -208,6 +209,9 @@ class _Walker:
             return
         rootname, _ = self.root(v)
         if rootname in MODULE_ALIASES:
+            # _np.asarray(<parameter>): the argument is replaced by its plain-array content (ndarray subclasses reduce differently)
+            if f.attr == 'asarray' and len(node.args) == 1 and isinstance(node.args[0], ast.Name) and node.args[0].id in self.params:
+                self.events.append(('GCall', 'asarray'))
             return
         if f.attr in MUTATORS:
             if rootname == 'self':
